@@ -8,6 +8,7 @@ import (
 	"bytes"
 	"fmt"
 	"io"
+	"os"
 	"os/exec"
 	"strconv"
 	"strings"
@@ -22,6 +23,7 @@ type SolverStats struct {
 	Unknown  int64
 	Errors   int64
 	Fallback int64
+	Enumerated int64 // branch-feasibility queries over ≤8 free bits decided by complete enumeration
 	Nanos    int64
 }
 
@@ -35,6 +37,7 @@ type Solver struct {
 	asserts []*Term // asserted at base level in this session (for fallback dumps)
 	seq     int
 	timeout int // ms per check
+	ndefs   int
 	dead    bool
 }
 
@@ -47,7 +50,12 @@ func StartSolver(timeoutMs int) (*Solver, error) {
 }
 
 func (s *Solver) start() error {
-	cmd := exec.Command("z3", "-in", "-smt2")
+	var cmd *exec.Cmd
+	if gPrimarySolver == "cvc5" {
+		cmd = exec.Command("cvc5", "--incremental", "--produce-models", "--lang=smt2", fmt.Sprintf("--tlimit-per=%d", s.timeout))
+	} else {
+		cmd = exec.Command(gPrimarySolver, "-in", "-smt2")
+	}
 	in, err := cmd.StdinPipe()
 	if err != nil {
 		return err
@@ -81,15 +89,20 @@ func (s *Solver) send(text string) {
 	}
 }
 
-// Reset starts a new session (new path).
+// Reset starts a new solver session (definitions are forgotten).
 func (s *Solver) Reset() {
 	s.em = NewEmitter()
 	s.asserts = s.asserts[:0]
+	s.ndefs = 0
 	if s.dead {
 		s.Close()
 		if err := s.start(); err != nil {
 			panic(engineError{"cannot restart z3: " + err.Error()})
 		}
+		return
+	}
+	if gPrimarySolver == "cvc5" {
+		s.send("(reset)\n(set-logic QF_BV)\n")
 		return
 	}
 	s.send(fmt.Sprintf("(reset)\n(set-option :timeout %d)\n", s.timeout))
@@ -113,7 +126,7 @@ func (s *Solver) readUntil(marker string) ([]string, error) {
 			s.dead = true
 			return lines, err
 		}
-		line = strings.TrimRight(line, "\r\n")
+		line = strings.Trim(strings.TrimRight(line, "\r\n"), "\"")
 		if line == marker {
 			return lines, nil
 		}
@@ -131,19 +144,41 @@ const (
 
 func (r SatResult) String() string { return [...]string{"unsat", "sat", "unknown"}[r] }
 
-// Check decides session ∧ extra. If sat and wantModel, a model of all declared variables is returned.
-func (s *Solver) Check(extra *Term, wantModel bool) (SatResult, Model) {
+// CheckSet decides the conjunction of terms (a self-contained query; term definitions persist in the
+// session so that shared sub-terms are sent once per worker). If sat and wantModel, values of vars are returned.
+func (s *Solver) CheckSet(terms []*Term, vars []string, wantModel bool) (SatResult, Model) {
 	t0 := time.Now()
 	atomic.AddInt64(&gStats.Queries, 1)
+	s.asserts = append(s.asserts[:0], terms...)
 	var sb strings.Builder
-	if extra != nil {
-		s.em.Define(&sb, extra)
+	// variable declarations persist in the session; term definitions live inside the push scope and are
+	// popped with it (accumulated define-funs make every later check-sat slower in z3)
+	for _, t := range terms {
+		s.em.DeclareVars(&sb, t)
 	}
 	s.seq++
 	marker := "<<" + strconv.Itoa(s.seq) + ">>"
-	sb.WriteString("(push)\n")
-	if extra != nil {
-		fmt.Fprintf(&sb, "(assert %s)\n", smtRef(extra))
+	if gPrimarySolver == "cvc5" {
+		// cvc5's check-sat cost does not grow with the number of definitions: keep them in the session
+		if len(s.em.defined) > 1_000_000 {
+			s.Reset()
+			for _, t := range terms {
+				s.em.DeclareVars(&sb, t)
+			}
+		}
+		for _, t := range terms {
+			s.em.Define(&sb, t)
+		}
+		sb.WriteString("(push)\n")
+	} else {
+		sb.WriteString("(push)\n")
+		qem := &Emitter{defined: map[int]bool{}, vars: s.em.vars}
+		for _, t := range terms {
+			qem.Define(&sb, t)
+		}
+	}
+	for _, t := range terms {
+		fmt.Fprintf(&sb, "(assert %s)\n", smtRef(t))
 	}
 	sb.WriteString("(check-sat)\n")
 	fmt.Fprintf(&sb, "(echo \"%s\")\n", marker)
@@ -171,10 +206,10 @@ func (s *Solver) Check(extra *Term, wantModel bool) (SatResult, Model) {
 		atomic.AddInt64(&gStats.Errors, 1)
 		res = ResUnknown
 	}
-	if res == ResSat && wantModel && len(s.em.varList) > 0 {
+	if res == ResSat && wantModel && len(vars) > 0 {
 		s.seq++
 		marker = "<<" + strconv.Itoa(s.seq) + ">>"
-		s.send("(get-value (" + strings.Join(s.em.varList, " ") + "))\n(echo \"" + marker + "\")\n")
+		s.send("(get-value (" + strings.Join(vars, " ") + "))\n(echo \"" + marker + "\")\n")
 		lines, err = s.readUntil(marker)
 		if err != nil {
 			res = ResUnknown
@@ -190,14 +225,9 @@ func (s *Solver) Check(extra *Term, wantModel bool) (SatResult, Model) {
 	if res == ResUnknown {
 		// portfolio fallback on a fresh one-shot process
 		atomic.AddInt64(&gStats.Fallback, 1)
-		res, model = s.fallback(extra, wantModel)
+		res, model = s.fallback(nil, wantModel)
 		if s.dead {
-			// restart and re-assert the session
-			as := append([]*Term(nil), s.asserts...)
 			s.Reset()
-			for _, a := range as {
-				s.Assert(a)
-			}
 		}
 	}
 	switch res {
@@ -207,6 +237,11 @@ func (s *Solver) Check(extra *Term, wantModel bool) (SatResult, Model) {
 		atomic.AddInt64(&gStats.Unsat, 1)
 	default:
 		atomic.AddInt64(&gStats.Unknown, 1)
+	}
+	if d := os.Getenv("SYMGO_DUMPQ"); d != "" && time.Since(t0) > 15*time.Millisecond {
+		if n := atomic.AddInt64(&gDumped, 1); n <= 20 {
+			os.WriteFile(fmt.Sprintf("%s/q%d_%dms.smt2", d, n, time.Since(t0).Milliseconds()), []byte(s.dump(nil, false)), 0o644)
+		}
 	}
 	atomic.AddInt64(&gStats.Nanos, int64(time.Since(t0)))
 	return res, model
@@ -261,6 +296,16 @@ func (s *Solver) dump(extra *Term, wantModel bool) string {
 
 var gFallbackTimeout = 60 // seconds per back end
 
+// gPrimarySolver is the long-lived incremental solver (z3 5.1.0 answers small queries ~6x faster than 4.8.12).
+var gPrimarySolver = envOr("SYMGO_SOLVER", "z3-new")
+
+func envOr(k, d string) string {
+	if v := os.Getenv(k); v != "" {
+		return v
+	}
+	return d
+}
+
 type backend struct {
 	name string
 	argv []string
@@ -281,7 +326,7 @@ func (s *Solver) fallback(extra *Term, wantModel bool) (SatResult, Model) {
 	}
 	tmo := gFallbackTimeout
 	bes := []backend{
-		{"z3-new", []string{"z3-new", "-in", "-smt2", fmt.Sprintf("-T:%d", tmo)}, ""},
+		{"z3-4.8.12", []string{"z3", "-in", "-smt2", fmt.Sprintf("-T:%d", tmo)}, ""},
 		{"cvc5", []string{"cvc5", "--lang=smt2", "--produce-models", fmt.Sprintf("--tlimit=%d", tmo*1000)}, "(set-logic QF_BV)\n"},
 	}
 	if muldiv {
@@ -359,3 +404,4 @@ func init() {
 	gBackendUse.mu = make(chan struct{}, 1)
 	gBackendUse.m = map[string]int{}
 }
+var gDumped int64
